@@ -76,6 +76,23 @@ func (c *Ctx) checkTagWrites() {
 			}
 			return false, false
 		}}
+		// ... when there are no old tags: the comparison is against nil (creation). Where existing tags
+		// are compared (an update), an empty new list *removes* every old reserved tag and is not exempt.
+		comparesOld := false
+		c.regionInstrs(fn, func(_ *ssa.Function, in ssa.Instruction) {
+			call, ok := in.(*ssa.Call)
+			if !ok || core.CalleeOf(&call.Call) != rte || len(call.Call.Args) < 2 {
+				return
+			}
+			for _, a := range call.Call.Args[:2] {
+				if !core.Derives(a, isNorm, false) && !core.IsNil(a) {
+					comparesOld = true
+				}
+			}
+		})
+		if comparesOld {
+			gEmpty = core.Guard{Name: "len(tags)==0 (not exempt: old tags exist)", Match: func(a core.CondAtom) (bool, bool) { return false, false }}
+		}
 		for i, s := range sinks {
 			// a merged value (phi with the no-tags case): the guard must hold on the edges that carry
 			// the normalised tags
